@@ -56,6 +56,8 @@ def litSrc : Val → String
   | .list _ => "[...]"
   | .tuple _ => "(...)"
 
+def radixFn : Radix → String | .bin => "bin" | .oct => "oct" | .hex => "hex"
+
 /-- Python source of a model expression (fully parenthesised) -/
 def render : PyExpr → String
   | .var n => n
@@ -96,13 +98,36 @@ def render : PyExpr → String
   | .sliceAll a => s!"{render a}[:]"
   | .isinstance a t => s!"isinstance({render a}, {typeNameS t})"
   | .typeIsNone a => s!"(type({render a}) is type(None))"
+  | .typeEqNone a => s!"(type({render a}) == type(None))"
+  | .typeNeNone a => s!"(type({render a}) != type(None))"
+  | .typeIsNotNone a => s!"(type({render a}) is not type(None))"
+  | .isinstance2 a t u => s!"isinstance({render a}, {typeNameS t} | {typeNameS u})"
+  | .call0 t => s!"{typeNameS t}()"
+  | .tup3 a b c => s!"({render a}, {render b}, {render c})"
+  | .list3 a b c => s!"[{render a}, {render b}, {render c}]"
+  | .sliceFrom a i => s!"{render a}[{render i}:]"
+  | .sliceTo a i => s!"{render a}[:{render i}]"
+  | .sliceRev a => s!"{render a}[::-1]"
+  | .neg a => s!"(-{render a})"
+  | .startswith a b => s!"{render a}.startswith({render b})"
+  | .endswith a b => s!"{render a}.endswith({render b})"
+  | .removeprefix a b => s!"{render a}.removeprefix({render b})"
+  | .removesuffix a b => s!"{render a}.removesuffix({render b})"
+  | .sortedRev a => s!"sorted({render a}, reverse=True)"
+  | .listReversed a => s!"list(reversed({render a}))"
+  | .radixOf r a => s!"{radixFn r}({render a})"
+  | .fmtRadix r alt a => "f\"{" ++ render a ++ ":" ++ (if alt then "#" else "") ++ String.singleton r.letter ++ "}\""
+  | .fstr a => "f\"{" ++ render a ++ "}\""
+  | .count a b => s!"{render a}.count({render b})"
+  | .bitCount a => s!"{render a}.bit_count()"
 
 def ruleJ (r : Rule) (refuted : Bool) : Json := Json.mkObj [
+  ("guard", r.guard), ("guarded", !r.guard.isEmpty),
   ("code", r.code), ("label", r.label),
   ("vars", Json.arr (r.vars.map (fun p => Json.arr #[Json.str p.1, optJ (fun t => Json.str (typeNameS t)) p.2])).toArray),
   ("old", render r.old), ("new", render r.new), ("cond_pos", r.condPos), ("refuted", refuted)]
 
-def allRules : List (Rule × Bool) := rules.map (·, false) ++ refutedRules.map (·, true)
+def allRules : List (Rule × Bool) := rules.map (·, false) ++ guardedRules.map (·, false) ++ refutedRules.map (·, true)
 
 def envOfJ (j : Json) : Env := fun n =>
   match j.getObjVal? n with
@@ -130,6 +155,11 @@ def renderStmt (ind : Nat) : Stmt → List String
     [pad ind s!"if {render c}:"] ++ renderBlock (ind + 1) t ++ (if e.isEmpty then [] else [pad ind "else:"] ++ renderBlock (ind + 1) e)
   | .forIn v it b => [pad ind s!"for {v} in {render it}:"] ++ renderBlock (ind + 1) b
   | .forEnum i v it b => [pad ind s!"for {i}, {v} in enumerate({render it}):"] ++ renderBlock (ind + 1) b
+  | .delAll x => [pad ind s!"del {x}[:]"]
+  | .sliceAssignEmpty x => [pad ind s!"{x}[:] = []"]
+  | .clear x => [pad ind s!"{x}.clear()"]
+  | .sortIn x rev => [pad ind (if rev then s!"{x}.sort(reverse=True)" else s!"{x}.sort()")]
+  | .reverseIn x => [pad ind s!"{x}.reverse()"]
 def renderBlock (ind : Nat) : List Stmt → List String
   | [] => [pad ind "pass"]
   | [s] => renderStmt ind s
@@ -141,12 +171,13 @@ def nestLines : Nat → Nat → List Stmt → List String
   | k + 1, ind, b => [pad ind "for _ in range(1):"] ++ nestLines k (ind + 1) b
 
 def sruleJ (r : SRule) (refuted : Bool) : Json := Json.mkObj [
+  ("guard", r.guard), ("guarded", !r.guard.isEmpty),
   ("code", r.code), ("label", r.label),
   ("vars", Json.arr (r.vars.map (fun p => Json.arr #[Json.str p.1, optJ (fun t => Json.str (typeNameS t)) p.2])).toArray),
   ("old", "\n".intercalate (nestLines r.nest 0 r.old)), ("new", "\n".intercalate (nestLines r.nest 0 r.new)),
   ("advice", r.advice), ("ignore", Json.arr (r.ignore.map Json.str).toArray), ("refuted", refuted)]
 
-def allSRules : List (SRule × Bool) := srules.map (·, false) ++ refutedSRules.map (·, true)
+def allSRules : List (SRule × Bool) := srules.map (·, false) ++ guardedSRules.map (·, false) ++ refutedSRules.map (·, true)
 
 def flowJ (names : List String) : Flow → Json
   | .next σ => Json.mkObj [("r", "next"), ("state", Json.mkObj (names.map (fun n => (n, optJ valJ (σ n)))))]
